@@ -125,6 +125,28 @@ Theorem C19_mean_in_arc row w lo hi :
   exists k : Z, lo <= mean_row ROps row w + 2 * IZR k * PI <= hi.
 Proof. exact (mean_row_in_arc row w lo hi). Qed.
 
+(* ---- the same three clauses on whole matrices (general branch, cols <> 1) *)
+Theorem C19_mean_rotation_matrix cols a w d : cols <> 1%nat -> Forall (row_nonzero w) a ->
+  Forall2 cong2pi (map (fun m => m + d) (dir_mean ROps cols a w))
+                  (dir_mean ROps cols (map (map (fun x => x + d)) a) w).
+Proof. exact (mean_rotation_matrix cols a w d). Qed.
+
+(* arc_ok cols row (lo, hi): the row has cols entries, all in [lo, hi], hi - lo < PI *)
+Theorem C19_mean_in_arc_matrix cols a w arcs : cols <> 1%nat -> length w = cols ->
+  Forall (fun x => 0 < x) w -> Forall2 (arc_ok cols) a arcs ->
+  Forall2 (fun m lh => exists k : Z, fst lh <= m + 2 * IZR k * PI <= snd lh) (dir_mean ROps cols a w) arcs.
+Proof. exact (mean_in_arc_matrix cols a w arcs). Qed.
+
+(* ---- the one-column branch against the property's literal clauses: with one column the result is
+   (i) not the argument of the weighted resultant, even for a positive weight (3 PI is returned, the argument is PI),
+   (ii) affected by a 2 PI shift of the sample, (iii) independent of the weight (a negative weight turns the
+   resultant by a half turn).  All three hold only modulo 2 PI / for a positive weight. *)
+Theorem C19_mean_single_column_literal_refuted :
+  (exists a w, 0 < w /\ dir_mean ROps 1 [[a]] [w] <> [mean_row ROps [a] [w]]) /\
+  (exists a w, 0 < w /\ dir_mean ROps 1 [[a + 2 * IZR 1 * PI]] [w] <> dir_mean ROps 1 [[a]] [w]) /\
+  (exists a w, w < 0 /\ ~ cong2pi (mean_row ROps [a] [w]) (nth 0 (dir_mean ROps 1 [[a]] [w]) 0)).
+Proof. exact single_column_literal_refuted. Qed.
+
 (* non-vacuity *)
 Example C19_in_arc_premises_satisfiable :
   let row := [1; 2; 3/2] in let w := [1/4; 1/4; 1/2] in
@@ -161,3 +183,6 @@ Print Assumptions C19_mean_all_equal_matrix.
 Print Assumptions C19_mean_all_equal_in_range.
 Print Assumptions C19_mean_all_equal_single_column.
 Print Assumptions C19_mean_in_arc.
+Print Assumptions C19_mean_rotation_matrix.
+Print Assumptions C19_mean_in_arc_matrix.
+Print Assumptions C19_mean_single_column_literal_refuted.
